@@ -292,6 +292,9 @@ OPS = [
   ("formula_wrong_arity_builtin_after_correct_use_too_many", "*", late_wrong_call("as.morse(r, k, 2.0, 0.5, 9.9)")),
   ("formula_wrong_arity_pymath_after_correct_use", "*", late_wrong_call("k + pymath.tanh(0.1*r, k)")),
   ("formula_wrong_arity_custom_form_after_correct_use", "*", late_wrong_call("other(r, k, 2.0)")),
+  # exprtk also groups with [] and {}: malformed uses of those (the error text then quotes a brace)
+  ("formula_unbalanced_curly_bracket", "*", op_value("Potential-Form", lambda k, v: k.startswith("other"), lambda v, rng: rng.choice(["k/{r+1", "k/{r+1}}", "{k +* r}", "k*exp{0 - r}", "k/[r+1", "k/(r+1}"]))),
+  ("formula_wrong_arity_in_nested_call_with_curly_brackets", "*", op_value("Potential-Form", lambda k, v: k.startswith("cf"), lambda v, rng: "{A*exp(-r/rho)} + other(r)")),
   ("formula_unparsable", "*", op_value("Potential-Form", lambda k, v: k.startswith("other"), lambda v, rng: rng.choice(["k/(r+1", "k */ r", "k +* r", "k/(r+1))"]))),
   ("formula_unknown_pymath_function", "*", op_value("Potential-Form", lambda k, v: k.startswith("other"), lambda v, rng: v.replace("pymath.tanh", "pymath.nosuch"))),
   ("formula_empty", "*", op_value("Potential-Form", lambda k, v: k.startswith("other"), lambda v, rng: "")),
